@@ -4,6 +4,7 @@ import scen, stack as S, vts, peer as P, refpeer as R
 from scen import payload
 
 STACK_ADDR, PEER_ADDR = 0x20, 0x30
+OTHER_ADDR = 0x21        # a second address of the stack's ECU (prior_from)
 FD_LAST = [29, 45, 4, 5, 8, 9, 12, 13, 16, 17, 20, 21, 28, 44, 1, 59, 60]
 
 
@@ -75,11 +76,29 @@ def gen(rng, k, dll=None, big=False, presend=False):
         # the stack has other FD transfers open (to addresses nobody owns; they time out) when it starts this one, so this
         # one runs under a session number other than 0: every frame of it must carry that number
         sc['presend'] = rng.choice([1, 2, 3, 7])
+    if presend and role == 'stack-originator' and 'presend' not in sc and rng.random() < 0.3:
+        # the ECU has just sent a multi-packet message of the same kind to the same destination from ANOTHER of its addresses
+        # (completed before this one starts): every frame of this one carries this one's source address
+        sc['prior_from'] = dict(size=(rng.randint(61, 130) if fd else rng.randint(9, 30)), seed=rng.getrandbits(30))
+    if presend and role == 'stack-originator' and not bam and 'prior_from' not in sc and rng.random() < 0.3:
+        # a responder that answers inside the stack's own send call (zero bus latency, zero reply delay): its clear-to-send
+        # for the next window is handled before the call that handed over the last packet of the window has returned
+        sc['lat'] = [0]
+        plan['reply_delay'] = 0
+        plan['holds'] = [0]
+        plan['sync'] = True
+        plan['windows'] = [rng.choice([2, 3, 4]), rng.choice([2, 3, 5])]
+        sc['max_cmdt'] = max_cmdt = rng.choice([8, 255, rng.randint(5, 255)])
+        if n < 5:
+            sc['size'] = size = unit * rng.randint(5, 9) - rng.randint(0, unit - 1)
+            n = (size + unit - 1) // unit
     biv = bam_iv if bam_iv is not None else (0.05 if not fd else 0.01)
     wmin = max(1, min(min(windows), max_cmdt or 255, plan['limit']))     # the RTS limit (either side's) clips every window
     nwin = (n + wmin - 1) // wmin
     dur = n * (max(int(biv * 1e6), plan['dt_gap'], int((cmdt_iv or 0) * 1e6)) + 12000) \
         + nwin * (plan['reply_delay'] + (max(holds) + 1) * plan['hold_gap'] + 20000) + 5_000_000
+    if 'prior_from' in sc:
+        dur += 3 * (max(int(biv * 1e6), int((cmdt_iv or 0) * 1e6)) + 12000) + 3 * (plan['reply_delay'] + (max(holds) + 1) * plan['hold_gap'] + 20000) + 1_000_000
     sc['horizon'] = min(dur, 400_000_000)
     return sc
 
@@ -109,7 +128,22 @@ def runner(sc):
                 for i in range(sc.get('presend', 0)):
                     st.send_pgn(0, 0xD0, 0x50 + i, 6, STACK_ADDR, scen.lcg_bytes(sc['seed'] + 1 + i, 61 + i))
                 res.ret = st.send_pgn(sc['dp'], sc['pf'], ps, sc['prio'], STACK_ADDR, data)
-            sim.at(1000, go)
+            if 'prior_from' in sc:
+                st.subscribe(st.cb(2, 'sub'), OTHER_ADDR)
+                res.prior = scen.lcg_bytes(sc['prior_from']['seed'], sc['prior_from']['size'])
+
+                def prior():
+                    res.prior_ret = st.send_pgn(sc['dp'], sc['pf'], ps, sc['prio'], OTHER_ADDR, list(res.prior))
+                    sim.at(sim.now + 20000, poll)
+
+                def poll():
+                    if st.tables_empty() and pr.rx is None:
+                        go()
+                    else:
+                        sim.at(sim.now + 20000, poll)
+                sim.at(1000, prior)
+            else:
+                sim.at(1000, go)
         else:
             plan['payload'] = data
             plan['dest'] = 255 if sc['bam'] else STACK_ADDR
@@ -162,7 +196,11 @@ def oracle_c03(sc, res):
         if res.ret is not True:
             v.append(dict(kind='send-refused', ret=str(res.ret)))
             return v
-        dl = res.peer['delivered']
+        dl = [d for d in res.peer['delivered'] if d['sa'] != OTHER_ADDR]
+        if 'prior_from' in sc:
+            pd = [d for d in res.peer['delivered'] if d['sa'] == OTHER_ADDR]
+            if getattr(res, 'prior_ret', None) is not True or len(pd) != 1 or pd[0]['data'] != res.prior:
+                v.append(dict(kind='reference-decoder-did-not-get-the-earlier-message-from-the-other-address', n=len(pd), ret=str(getattr(res, 'prior_ret', None))))
         if len(dl) != 1:
             v.append(dict(kind='reference-decoder-did-not-get-the-message', n=len(dl), log=res.peer['log'][:3], aborts=res.peer['aborts'][:2]))
         else:
@@ -181,6 +219,8 @@ def oracle_c03(sc, res):
         for e in frames:
             prio_, pg, sa = R.ref_parse_id(e[3])
             pf = (pg >> 8) & 0xFF
+            if sa == OTHER_ADDR:
+                continue           # the earlier message from the ECU's other address
             if not fd and pf == 0xEC and e[6][0] in (16, 32):
                 m = R.ref_decode_cm(list(e[6]))
                 lim_ok = m['kind'] == 'BAM' or m['limit'] == min(sc['max_cmdt'], n)
